@@ -24,6 +24,10 @@ pub mod streaming;
 pub mod tcp;
 pub mod versioning;
 
+/// Verification hooks (feature `iggy_verif` only).
+#[cfg(feature = "iggy_verif")]
+pub mod verif;
+
 /// Verification hook (feature `iggy_verif` only): the wire-level command decoder.
 #[cfg(feature = "iggy_verif")]
 pub use command::ServerCommand;
